@@ -180,6 +180,8 @@ func Check() *common.Check {
 	return &common.Check{
 		ID:    "C07",
 		Level: "exploration",
+		// every case is recorded before it runs: a fatal error or a hang of the worker is attributed to it
+		CrashSafe: true,
 		Rule: fmt.Sprintf("inputs with at least one non-semicolon token: the sqlgen clause/DML/DDL/hole/nesting statements (valid), every single-token deletion, duplication and replacement by 7 hostile tokens of the first 250 (quick) / 1500 (thorough) distinct statements, "+
 			"all scripts of <=3 items over 3 valid + 2 invalid statements and the empty item (stray semicolons), 14 lexically invalid inputs; each through %d entry points compared with gosqlx.Parse (accept/reject, canonical tree, structured error code); "+
 			"all batches of length <=3 over 4 valid + 3 invalid inputs, and every generated statement (once and twice) followed by the deepest nesting a new parser accepts, through ParseMultiple / ValidateMultiple. distinct = distinct input text; non-trivial = every executed case (each runs all entry points)", len(eps)),
